@@ -371,7 +371,7 @@ def _gen_spec(rng, kind):
                  size_form=rng.choice(["tuple", "int"]) if ph == pw else "tuple")
     elif kind == "norm":
         c = rng.choice([1, 3, 5]) if io == "tensor" else rng.choice([1, 3])
-        s.update(h=_side(rng, 32), w=_side(rng, 32), c=c, io=io, which=rng.choice(["image", "range"]), inplace=rng.random() < 0.6,
+        s.update(h=_side(rng, 32), w=_side(rng, 32), c=c, io=io, which=rng.choice(["image", "range"]), inplace=rng.random() < 0.5, inplace_inv=rng.random() < 0.5,
                  mean=[round(rng.uniform(0, 1), 3) for _ in range(c)], std=[round(rng.uniform(0.05, 2), 3) for _ in range(c)])
     else:
         raise ValueError(kind)
@@ -1006,28 +1006,72 @@ def _inverse_case(run, s):
         c, h, w = s["c"], s["h"], s["w"]
         x = _patch_input(s)
         xt = x.clone() if torch.is_tensor(x) else F.to_tensor(x)
+        ip_f, ip_b = bool(s["inplace"]), bool(s.get("inplace_inv", s["inplace"]))
         if s["which"] == "image":
-            mk = lambda inv: KDImageNorm(mean=tuple(s["mean"]), std=tuple(s["std"]), inverse=inv, inplace=s["inplace"])
-            name = f"KDImageNorm(mean={s['mean']}, std={s['std']}, inplace={s['inplace']})"
+            mk = lambda inv, ip: KDImageNorm(mean=tuple(s["mean"]), std=tuple(s["std"]), inverse=inv, inplace=ip)
+            name = f"KDImageNorm(mean={s['mean']}, std={s['std']})"
         else:
-            mk = lambda inv: KDImageRangeNorm(inverse=inv, inplace=s["inplace"])
-            name = f"KDImageRangeNorm(inplace={s['inplace']})"
-        what = f"{name} on {s['io']} {c}x{h}x{w}"
-        fwd, bwd = mk(False), mk(True)
-        arg = x.clone() if torch.is_tensor(x) else x
-        ok, y = _real(run, lambda: bwd(fwd(arg, {}), {}), what + " denorm(norm(x))")
-        if not ok:
+            mk = lambda inv, ip: KDImageRangeNorm(inverse=inv, inplace=ip)
+            name = "KDImageRangeNorm()"
+        what = f"{name} norm(inplace={ip_f}) / denorm(inverse=True, inplace={ip_b}) on {s['io']} {c}x{h}x{w}"
+        fwd, bwd = mk(False, ip_f), mk(True, ip_b)
+        run.cover("norm", s["which"], s["io"], ip_f, ip_b, c)
+        key = f"inverse:norm-{s['which']}"
+
+        def call(t, arg, inplace, label):
+            """one __call__; the argument is compared with its pre-call clone. -> result or None"""
+            is_t = torch.is_tensor(arg)
+            pre = arg.clone() if is_t else arg.tobytes()
+            ok, out = _real(run, lambda: t(arg, {}), f"{what} {label}")
+            if not ok:
+                return None
+            run.count("norm_call_argument_checked")
+            if not is_t:
+                if arg.tobytes() != pre:
+                    V(f"{key}:argument-modified", f"{what} {label}: the PIL argument was modified")
+                    return None
+                return out
+            if not inplace:
+                if not same(arg, pre):
+                    V(f"{key}:argument-modified-with-inplace-false", f"{what} {label}: constructed with inplace=False but the argument tensor "
+                      f"was overwritten (max change {float((arg - pre).abs().max()):.4f})")
+                    return None
+                if out is arg or out.data_ptr() == arg.data_ptr():
+                    V(f"{key}:result-aliases-argument-with-inplace-false", f"{what} {label}: constructed with inplace=False but the result is the argument tensor")
+                    return None
+            else:
+                if out.data_ptr() != arg.data_ptr() or not same(arg, out):
+                    V(f"{key}:inplace-true-not-in-place", f"{what} {label}: constructed with inplace=True but the argument does not hold the result")
+                    return None
+            return out
+
+        def close(y, label, vkey):
+            if tuple(y.shape) != tuple(xt.shape) or not torch.allclose(y, xt, rtol=0, atol=1e-5):
+                V(f"{key}:{vkey}", f"{what}: {label} differs from x by {float((y - xt).abs().max()) if tuple(y.shape) == tuple(xt.shape) else 'shape'}")
+                return False
+            return True
+
+        # direction 1: denorm(norm(x)); the intermediate result is handed on as it is
+        a1 = x.clone() if torch.is_tensor(x) else x
+        n1 = call(fwd, a1, ip_f, "[norm(x)]")
+        if n1 is None:
+            return
+        d1 = call(bwd, n1, ip_b, "[denorm(norm(x))]")
+        if d1 is None:
             return
         run.count("inverse_checked")
-        run.cover("norm", s["which"], s["io"], s["inplace"], c)
-        if tuple(y.shape) != tuple(xt.shape) or not torch.allclose(y, xt, rtol=0, atol=1e-5):
-            V(f"inverse:norm-{s['which']}:denorm-of-norm", f"{what}: denorm(norm(x)) differs from x by {float((y - xt).abs().max()) if tuple(y.shape) == tuple(xt.shape) else 'shape'}")
+        if not close(d1, "denorm(norm(x))", "denorm-of-norm"):
             return
-        ok, z = _real(run, lambda: fwd(bwd(xt.clone(), {}), {}), what + " norm(denorm(x))")
-        if not ok:
+        # direction 2: norm(denorm(x))
+        a2 = x.clone() if torch.is_tensor(x) else x
+        d2 = call(bwd, a2, ip_b, "[denorm(x)]")
+        if d2 is None:
             return
-        if tuple(z.shape) != tuple(xt.shape) or not torch.allclose(z, xt, rtol=0, atol=1e-5):
-            V(f"inverse:norm-{s['which']}:norm-of-denorm", f"{what}: norm(denorm(x)) differs from x by {float((z - xt).abs().max()) if tuple(z.shape) == tuple(xt.shape) else 'shape'}")
+        n2 = call(fwd, d2, ip_f, "[norm(denorm(x))]")
+        if n2 is None:
+            return
+        run.count("inverse_checked")
+        close(n2, "norm(denorm(x))", "norm-of-denorm")
         return
 
     c, h, w, ph, pw = s["c"], s["h"], s["w"], s["ph"], s["pw"]
